@@ -12,7 +12,7 @@ import dataclasses
 import itertools
 import os
 
-from vlib import runner, sqlgen
+from vlib import rewrite, runner, sqlgen
 from vlib import sqlir as ir
 from vlib.props import C01, C02
 
@@ -580,6 +580,47 @@ def _skeleton_worker(payload):
     return res
 
 
+# ------------------------------------------------------------------------------------------ text templates (forms the IR does not have)
+LATERAL_TEMPLATES = [
+    "INSERT INTO tgt SELECT {f}.id, {s}.total FROM foo {f}, LATERAL (SELECT sum(bar.amt) AS total FROM bar WHERE bar.foo_id = {f}.id) {s}",
+    "INSERT INTO tgt SELECT {f}.id, {s}.total FROM foo AS {f} LEFT JOIN LATERAL (SELECT bar.amt AS total FROM bar WHERE bar.foo_id = {f}.id) AS {s} ON true",
+    "CREATE TABLE tgt AS SELECT {s}.total, {u}.k FROM foo {f} CROSS JOIN LATERAL (SELECT bar.amt AS total FROM bar) {s}, LATERAL (SELECT baz.k FROM baz) AS {u}",
+]
+LATERAL_NAMES = [dict(f="f", s="ss", u="u"), dict(f="n1", s="n2", u="n3"), dict(f="ZqA", s="Zq_B", u="zQc"), dict(f="ss", s="f", u="x")]
+# the dialects whose grammar reads LATERAL as a keyword in front of a derived table (elsewhere the alias of such a table is not registered at all:
+# the K-lateral-subquery@C01 family, outside this stream)
+LATERAL_DIALECTS = ["postgres", "snowflake", "duckdb", "oracle", "redshift"]
+
+
+def _template_worker(payload):
+    """aliased LATERAL derived tables (comma, LEFT JOIN, CROSS JOIN forms; with / without AS) under every renaming of their aliases"""
+    shard, nshards, ctx = payload
+    res = runner.Res()
+    idx = 0
+    for dialect in LATERAL_DIALECTS:
+        for tpl in LATERAL_TEMPLATES:
+            idx += 1
+            if idx % nshards != shard:
+                continue
+            sql = tpl.format(**LATERAL_NAMES[0])
+            if not rewrite.parses(sql, dialect):
+                res.discard("template_rejected_by_dialect:" + dialect)
+                continue
+            base = view(sql, dialect)
+            for names in LATERAL_NAMES[1:]:
+                sql2 = tpl.format(**names)
+                if not rewrite.parses(sql2, dialect):
+                    res.discard("template_rejected_by_dialect:" + dialect)
+                    continue
+                mapping = {LATERAL_NAMES[0][k]: names[k] for k in names}
+                c = {"original": sql, "rewritten": sql2, "dialect": dialect, "transformation": "rename(template)", "pool": "lateral", "mapping": mapping}
+                res.case((sql, sql2, dialect), True, labels=["template", "template:lateral", "dialect:" + dialect], sample=c)
+                d = compare(base, view(sql2, dialect), mapping)
+                if d is not None and len(res.violations) < 3:
+                    res.violation("metamorphic", c, d)
+    return res
+
+
 def replay(case):
     d = compare(view(case["original"], case["dialect"]), view(case["rewritten"], case["dialect"]), case.get("mapping"))
     return None if d is None else {"kind": "replay", "case": case, "detail": d}
@@ -590,4 +631,5 @@ def run(ctx):
     res = runner.merge_all(runner.pmap(_worker, [(i, n // runner.NCPU, ctx) for i in range(runner.NCPU)]))
     nshards = runner.NCPU * 2
     res.merge(runner.merge_all(runner.pmap(_skeleton_worker, [(i, nshards, ctx) for i in range(nshards)])))
+    res.merge(runner.merge_all(runner.pmap(_template_worker, [(i, runner.NCPU, ctx) for i in range(runner.NCPU)])))
     return res
